@@ -7,6 +7,7 @@ import Tx3Proofs.C01Spec
 import Tx3Proofs.C01Change
 import Tx3Proofs.C01Index
 import Tx3Proofs.C01Datum
+import Tx3Proofs.C01Field
 #print axioms Tx3.Lang.eval_int
 #print axioms Tx3.Lang.lower_int
 #print axioms Tx3.Lang.C01_int_fragment
@@ -45,3 +46,7 @@ import Tx3Proofs.C01Datum
 #print axioms Tx3.Lang.C01_redeemer_exact
 #print axioms Tx3.Lang.C01_field_order_immaterial
 #print axioms Tx3.Lang.C01_datum_fragment
+#print axioms Tx3.C01_input_field_value
+#print axioms Tx3.Lang.lower_input_field
+#print axioms Tx3.Lang.lower_record_with_spread
+#print axioms Tx3.Lang.C01_spread_field_value
